@@ -4,8 +4,11 @@
 From Coq Require Extraction.
 From Coq Require Import ExtrOcamlBasic.
 From CFDP Require Import Base.Prelude Model.Segments.
+From CFDP Require Import Model.Checksum.
 
 Extraction Language OCaml.
 Extraction "model.ml"
   Segments.merge_seg Segments.gaps Segments.is_complete Segments.seg_len
-  Segments.seg_end Segments.end_or_0.
+  Segments.seg_end Segments.end_or_0
+  Checksum.file_checksum
+  .
